@@ -23,8 +23,11 @@ import (
 	"golang.org/x/tools/go/ssa/ssautil"
 )
 
+// repoDir is /repo; VERIF_REPO overrides it (used only to try the checks on a
+// scratch worktree carrying a seeded change, never by the registered commands).
+var repoDir = envOr("VERIF_REPO", "/repo")
+
 const (
-	repoDir    = "/repo"
 	verifDir   = "/verif"
 	harnessDir = "/verif/harness"
 	workDir    = "/verif/.work"
@@ -36,6 +39,7 @@ type HarnessMeta struct {
 	Property string
 	Tier     string // "quick" (runs in both tiers) or "thorough"
 	Unwind   int
+	Solver   string // optional "verif:solver cvc5": SMT solver for this harness (FP-heavy kernels)
 	Desc     string
 	Bounds   string
 	Outside  string
@@ -113,6 +117,8 @@ func scanHarnesses() (overlay map[string][]byte, metas []HarnessMeta, err error)
 						m.Tier = val
 					case "unwind":
 						m.Unwind, _ = strconv.Atoi(val)
+					case "solver":
+						m.Solver = val
 					case "desc":
 						m.Desc += val + " "
 					case "bounds":
@@ -350,6 +356,7 @@ func cmdCheck(args []string) int {
 		Bounds       string            `json:"bounds,omitempty"`
 		Outside      string            `json:"outside_the_claim,omitempty"`
 		Unwind       int               `json:"unwind"`
+		Solver       string            `json:"solver,omitempty"`
 		Verdict      string            `json:"verdict"`
 		Paths        int               `json:"paths_completed"`
 		Infeasible   int               `json:"paths_infeasible"`
@@ -375,7 +382,7 @@ func cmdCheck(args []string) int {
 	var solverS float64
 	for _, h := range runs {
 		o := oblig{Name: h.Name, Pkg: h.Pkg, Desc: strings.TrimSpace(h.Meta.Desc), Bounds: strings.TrimSpace(h.Meta.Bounds), Outside: strings.TrimSpace(h.Meta.Outside),
-			Unwind: h.Unwind, Paths: h.Paths, Infeasible: h.Infeasible, PanicPaths: h.PanicPaths, Decisions: h.Decisions, MaxDepth: h.MaxDepth,
+			Unwind: h.Unwind, Solver: h.Meta.Solver, Paths: h.Paths, Infeasible: h.Infeasible, PanicPaths: h.PanicPaths, Decisions: h.Decisions, MaxDepth: h.MaxDepth,
 			Queries: h.Queries, Trivial: h.Trivial, SolverS: h.SolverTime.Seconds(), Steps: h.Steps, Funcs: sortedKeys(h.Funcs), Stubs: h.Stubs,
 			Reached: sortedKeys(h.Reached), GoInlined: h.GoInlined, Inconclusive: h.Inconclusive}
 		if o.Unwind == 0 {
@@ -696,11 +703,33 @@ type replayResult struct {
 	Done     bool     `json:"done"`
 }
 
+// runNativeReplay runs the cases in one test binary; when a case kills the
+// binary (a panic in a goroutine spawned by the code under test cannot be
+// recovered by the harness runner) the crash is attributed to that case and
+// the remaining cases are run in a fresh binary.
 func runNativeReplay(prop, dir string, cases []replayCase, overlay map[string][]byte) ([]*replayResult, error) {
+	var all []*replayResult
+	for len(all) < len(cases) {
+		res, crashed, err := runNativeReplayOnce(prop, dir, cases[len(all):], overlay)
+		if err != nil {
+			if len(all) == 0 {
+				return nil, err
+			}
+			break
+		}
+		all = append(all, res...)
+		if !crashed || len(res) == 0 {
+			break
+		}
+	}
+	return all, nil
+}
+
+func runNativeReplayOnce(prop, dir string, cases []replayCase, overlay map[string][]byte) ([]*replayResult, bool, error) {
 	wd := filepath.Join(workDir, fmt.Sprintf("%s-%s-%d", prop, sanitize(dir), os.Getpid()))
 	os.RemoveAll(wd)
 	if err := os.MkdirAll(wd, 0o755); err != nil {
-		return nil, err
+		return nil, false, err
 	}
 	defer os.RemoveAll(wd)
 	// materialise overlay files
@@ -710,7 +739,7 @@ func runNativeReplay(prop, dir string, cases []replayCase, overlay map[string][]
 		real := filepath.Join(wd, fmt.Sprintf("ov%d_%s", i, filepath.Base(virt)))
 		i++
 		if err := os.WriteFile(real, data, 0o644); err != nil {
-			return nil, err
+			return nil, false, err
 		}
 		repl[virt] = real
 	}
@@ -736,6 +765,7 @@ func runNativeReplay(prop, dir string, cases []replayCase, overlay map[string][]
 			}
 		}
 	}
+	crashed := false
 	if len(res) < len(cases) {
 		// a hard crash (fatal error, os.Exit) of the test binary: attribute to the next case
 		tail := outb.String()
@@ -745,10 +775,11 @@ func runNativeReplay(prop, dir string, cases []replayCase, overlay map[string][]
 		if runErr != nil && len(res) < len(cases) {
 			c := cases[len(res)]
 			res = append(res, &replayResult{Harness: c.Harness, Label: c.Label, Panic: "test binary died: " + oneLine(tail)})
+			crashed = true
 		}
 		if len(res) == 0 {
-			return nil, fmt.Errorf("go test produced no results: %v: %s", runErr, oneLine(tail))
+			return nil, false, fmt.Errorf("go test produced no results: %v: %s", runErr, oneLine(tail))
 		}
 	}
-	return res, nil
+	return res, crashed, nil
 }
